@@ -41,6 +41,17 @@ def run(ctx):
             if rng.random() < ctx.scale(0.25, 1.0):
                 cases.append({'src': rng.choice(['', 'A ', '\\begin{itemize}']) + nm + t, 'opts': {'pack': '*', 'lang': rng.choice(['', 'de', 'ru'])},
                               'multi': rng.random() < 0.2, 'kind': 'trunc', 'words': None, 'files': {'f1.tex': '\\footnote{x}\\newcommand{\\q}{Q}'}})
+    # counters and generators driven far: long (nested) lists, many formulas, many footnotes
+    for env in ('enumerate', 'itemize', 'description'):
+        for depth in (1, 2, 3, 4):
+            for nitems in (30, 60):
+                inner = ''.join('\\item Q%s%d\n' % (env[0], k) for k in range(nitems))
+                src = inner
+                for d in range(depth):
+                    src = '\\begin{%s}\n%s%s\\end{%s}\n' % (env, '\\item Qo\n' if d else '', src, env)
+                cases.append({'src': src, 'opts': {'pack': '*', 'lang': rng.choice(['', 'de'])}, 'multi': False, 'kind': 'long', 'words': None})
+    cases.append({'src': ' '.join('$x_{%d}$ Qw' % k for k in range(80)), 'opts': {'lang': 'en'}, 'multi': False, 'kind': 'long', 'words': None})
+    cases.append({'src': '\n'.join('\\begin{equation} a_%d = b \\end{equation}' % k for k in range(40)), 'opts': {'lang': 'de', 'pack': '*'}, 'multi': False, 'kind': 'long', 'words': None})
     ctx.stats['_rule'] = ('G-doc documents, every prefix cut at a construct end, single-token deletions/swaps/insertions (G-mut), token soup over '
                           'every token kind and known macro name (G-soup), every built-in macro name followed by truncated argument shapes; all option '
                           'records; non-trivial = distinct source/option pair')
